@@ -435,6 +435,13 @@ class _TaskGen(object):
                 self.add_restore()
             elif kind == 'cache':
                 self.add_cache()
+                # carry on working after the cache was disturbed: entries are re-derived, and a
+                # parameter sweep asks for keys the process has not seen yet
+                if self.live() and rng.random() < 0.7:
+                    for _ in range(rng.randint(1, 2)):
+                        self.add_call(allow_fault=False)
+                    if rng.random() < 0.4:
+                        self.add_sweep()
             elif kind == 'ddiff':
                 self.add_ddiff()
             elif kind == 'rule':
